@@ -186,3 +186,80 @@ def make_extract(src_root: Path | str, dst: Path | str, with_tests: bool = False
             open(p, "w").write(ast.unparse(tree) + "\n")
             total += h.count
     return total
+
+
+# ---- invert ----------------------------------------------------------------------------------
+
+
+def _negate(test: ast.expr) -> ast.expr:
+    if isinstance(test, ast.UnaryOp) and isinstance(test.op, ast.Not):
+        return test.operand
+    if isinstance(test, ast.Compare) and len(test.ops) == 1:
+        flip = {ast.Is: ast.IsNot, ast.IsNot: ast.Is, ast.Eq: ast.NotEq, ast.NotEq: ast.Eq, ast.In: ast.NotIn, ast.NotIn: ast.In}
+        if type(test.ops[0]) in flip:
+            return ast.Compare(left=test.left, ops=[flip[type(test.ops[0])]()], comparators=test.comparators)
+    return ast.UnaryOp(op=ast.Not(), operand=test)
+
+
+class Invert:
+    """(a) `if C: continue` followed by the rest of a loop body  ->  `if not C: <rest>`;
+       (b) `if C: A else: B` (B not an elif chain)               ->  `if not C: B else: A`."""
+
+    def __init__(self) -> None:
+        self.count = 0
+
+    def block(self, stmts: list[ast.stmt], in_loop_tail: bool) -> list[ast.stmt]:
+        out: list[ast.stmt] = []
+        i = 0
+        while i < len(stmts):
+            st = stmts[i]
+            if isinstance(st, (ast.FunctionDef, ast.AsyncFunctionDef, ast.ClassDef)):
+                out.append(st)
+                i += 1
+                continue
+            is_tail = in_loop_tail and True
+            if isinstance(st, ast.If) and not st.orelse and len(st.body) == 1 and isinstance(st.body[0], ast.Continue) and in_loop_tail and i + 1 < len(stmts):
+                rest = self.block(stmts[i + 1:], True)
+                new = ast.If(test=_negate(st.test), body=rest, orelse=[])
+                ast.copy_location(new, st)
+                out.append(new)
+                self.count += 1
+                return out
+            if isinstance(st, ast.If):
+                st.body = self.block(st.body, False)
+                if st.orelse and not (len(st.orelse) == 1 and isinstance(st.orelse[0], ast.If)):
+                    st.orelse = self.block(st.orelse, False)
+                    st.test, st.body, st.orelse = _negate(st.test), st.orelse, st.body
+                    self.count += 1
+                elif st.orelse:
+                    st.orelse = self.block(st.orelse, False)
+            elif isinstance(st, (ast.For, ast.AsyncFor, ast.While)):
+                st.body = self.block(st.body, True)
+                st.orelse = self.block(st.orelse, False) if st.orelse else st.orelse
+            elif isinstance(st, (ast.With, ast.AsyncWith)):
+                st.body = self.block(st.body, False)
+            elif isinstance(st, ast.Try):
+                st.body = self.block(st.body, False)
+                for h in st.handlers:
+                    h.body = self.block(h.body, False)
+                st.orelse = self.block(st.orelse, False) if st.orelse else st.orelse
+                st.finalbody = self.block(st.finalbody, False) if st.finalbody else st.finalbody
+            out.append(st)
+            i += 1
+        return out
+
+
+def make_invert(src_root: Path | str, dst: Path | str, with_tests: bool = False) -> int:
+    copy_tree(src_root, dst, with_tests)
+    total = 0
+    for p in _py_files(dst):
+        tree = ast.parse(open(p).read())
+        inv = Invert()
+        for node in ast.walk(tree):
+            if isinstance(node, (ast.FunctionDef, ast.AsyncFunctionDef)):
+                node.body = inv.block(node.body, False)
+        if inv.count:
+            ast.fix_missing_locations(tree)
+            open(p, "w").write(ast.unparse(tree) + "\n")
+            total += inv.count
+    return total
